@@ -198,6 +198,12 @@ def generate(tier, seed, stats):
     big += [(40, 1, MAXINT, "inmem", "inmem"), (40, 3, MAXINT - 7, "inmem", "wal"), (12, 1, MAXINT - 31, "wal", "inmem"),
             (40, 1, (1 << 31) - 1, "inmem", "inmem"), (40, 1, 1 << 31, "inmem", "inmem"), (40, 1, (1 << 32) + 3, "inmem", "inmem"),
             (40, 1, 1 << 62, "inmem", "inmem")]
+    # CopyStable: one name in BOTH key lists (stores with separate key spaces hold two values under it)
+    for xk, xi, prog in ((1, 1, "buf"), (2, 2, "nil"), (2, 1, "buf")):
+        out.append({"scen": {"sid": len(out), "op": "stable", "n": 0, "first": 0, "sizes": [], "kind": "fresh", "bb": 0, "xk": xk, "xi": xi,
+                             "xshare": True, "src": "inmem", "dst": "inmem", "prog": prog, "call": "none", "k": 0, "seed": seed % 1000003,
+                             "seg": 1 << 20, "ctx": "cancel"},
+                    "expect": None, "expect_pinned": None, "labels": []})
     for n, first, bb, src, dst in big:
         out.append({"scen": {"sid": len(out), "op": "logs", "n": n, "first": first, "sizes": [12 + (j % 5) for j in range(n)],
                              "kind": "filled", "bb": bb, "xk": 0, "xi": 0, "src": src, "dst": dst, "prog": "buf", "call": "none",
